@@ -264,6 +264,8 @@ class STensor:
                  node: Optional[Node] = None, const: Optional[SReal] = None, name: str = ""):
         self.lc = lc
         self.shape = SSize(shape)
+        if isinstance(meta, OffPathMeta):
+            meta = torch.empty(self.shape.sample(), dtype=meta.dtype, device="meta")
         self.meta = meta
         self.requires_grad = requires_grad or node is not None
         self.node = node
@@ -273,7 +275,12 @@ class STensor:
         self.name = name
         self.is_leaf = node is None
         if tuple(meta.shape) != self.shape.sample():
-            raise HarnessError(f"shape rule {self.shape} (sample {self.shape.sample()}) disagrees with torch's {tuple(meta.shape)} for {lc!r}")
+            if _sample_off_path():
+                # the current path condition (e.g. kernel == 1) excludes the sample point at which the shadow meta tensors live:
+                # torch's shape at the sample says nothing about this path - continue with the rule's own shape
+                self.meta = torch.empty(self.shape.sample(), dtype=meta.dtype, device="meta")
+            else:
+                raise HarnessError(f"shape rule {self.shape} (sample {self.shape.sample()}) disagrees with torch's {tuple(meta.shape)} for {lc!r}")
 
     # ---- construction
     @staticmethod
@@ -425,6 +432,19 @@ class STensor:
         backward(self, g)
 
 
+def _sample_off_path() -> bool:
+    c = Ctx.cur
+    if c is None or not c.path:
+        return False
+    s = z3.Solver()
+    s.set("timeout", 2000)
+    s.add(*c.path)
+    for n, v in c.dims.items():
+        if n in c.samples:
+            s.add(v == c.samples[n])
+    return str(s.check()) == "unsat"
+
+
 # =============================================================================== backward pass
 GRAD_RECORD: Optional[Dict[int, LC]] = None  # when set: id(tensor) -> total gradient that reached it
 
@@ -480,11 +500,29 @@ def _meta_args(x: Any) -> Any:
     return x
 
 
+class OffPathMeta:
+    """placeholder for torch's answer when the path condition excludes the sample point of the shadow meta tensors
+    (e.g. the branch `kernel_size == 1` with sample kernel 3): only the dtype is known; the shape comes from the stub's rule"""
+
+    def __init__(self, dtype: torch.dtype):
+        self.dtype = dtype
+        self.shape = ()
+
+    def is_floating_point(self) -> bool:
+        return self.dtype.is_floating_point
+
+
 def _run_meta(func: Any, args: Tuple[Any, ...], kwargs: Dict[str, Any]) -> Any:
     try:
         return func(*[_meta_args(a) for a in args], **{k: _meta_args(v) for k, v in kwargs.items()})
     except (NotImplementedError,) as e:
         raise HarnessError(f"meta execution failed for {func}: {e}")
+    except (RuntimeError, ValueError, IndexError):
+        if _sample_off_path():
+            dts = [a.dtype for a in list(args) + list(kwargs.values()) if isinstance(a, STensor)]
+            fl = [d for d in dts if d.is_floating_point]
+            return OffPathMeta((fl or dts or [torch.float32])[0])
+        raise
 
 
 def _scalar_of(x: Any) -> Optional[SReal]:
@@ -557,7 +595,7 @@ def _scaled(t: STensor, s: SReal, meta: torch.Tensor, inverse: bool = False) -> 
     const = None
     if t.const is not None:
         const = SReal(z3.simplify(t.const.z * f))
-    return STensor(lc_scale(t.lc, f), t.shape if len(t.shape) >= len(meta.shape) else meta.shape, meta, node=node, const=const)
+    return STensor(lc_scale(t.lc, f), t.shape if (isinstance(meta, OffPathMeta) or len(t.shape) >= len(meta.shape)) else meta.shape, meta, node=node, const=const)
 
 
 def _single(lc: LC) -> Optional[Tuple[Any, Term]]:
@@ -967,7 +1005,9 @@ def _h_shape_op(name: str, func: Any, args: Tuple[Any, ...], kw: Dict[str, Any])
         if len(args) < 2:
             raise HarnessError("squeeze without dim")
         i = args[1] % len(x.shape)
-        shape = (x.shape[:i] + x.shape[i + 1:]) if (isinstance(x.shape[i], int) and x.shape[i] == 1) else x.shape
+        d = x.shape[i]
+        one = (d == 1) if isinstance(d, int) else bool(dim_eq(d, 1))  # symbolic size: decided by the path condition (forks)
+        shape = (x.shape[:i] + x.shape[i + 1:]) if one else x.shape
     elif name in ("reshape", "view"):
         tgt = args[1:] if not isinstance(args[1], (tuple, list, SSize)) else tuple(args[1])
         if any(isinstance(v, int) and v == -1 for v in tgt):
